@@ -148,6 +148,40 @@ func genC08(t *rapid.T) c08Case {
 		c.Skips = append(c.Skips, fmt.Sprintf("%s@%d:%s", name, rapid.IntRange(0, n).Draw(t, "skipat"), rapid.SampledFrom([]string{"Skip", "Skipf", "SkipNow"}).Draw(t, "skipkind")))
 	}
 	c.Run = rapid.SampledFrom(c08RunPool).Draw(t, "run")
+	if rapid.IntRange(0, 2).Draw(t, "derivedrun") == 0 {
+		// a pattern typed after the name of one test of THIS program: elements anchored at the end, at both ends, quoted or
+		// not, cut short, the last element alone (which tests it selects is decided by the real runner)
+		els := strings.Split(rapid.SampledFrom(names).Draw(t, "runname"), "/")
+		q := func(e string) string {
+			if rapid.Bool().Draw(t, "quotemeta") {
+				return regexp.QuoteMeta(e)
+			}
+			return e
+		}
+		switch rapid.IntRange(0, 4).Draw(t, "runform") {
+		case 0:
+			for i := range els {
+				els[i] = q(els[i])
+			}
+			c.Run = strings.Join(els, "/") + "$"
+		case 1:
+			for i := range els {
+				els[i] = "^" + q(els[i]) + "$"
+			}
+			c.Run = strings.Join(els, "/")
+		case 2:
+			last := els[len(els)-1]
+			els[len(els)-1] = q(last[:rapid.IntRange(1, len(last)).Draw(t, "cut")]) + "$"
+			c.Run = strings.Join(els, "/")
+		case 3:
+			c.Run = "/" + q(els[len(els)-1]) + "$"
+		default:
+			for i := range els {
+				els[i] = q(els[i])
+			}
+			c.Run = strings.Join(els, "/")
+		}
+	}
 	c.Upd = rapid.SampledFrom([]string{"", "clean", "clean", "true"}).Draw(t, "upd")
 	c.Sort = rapid.Bool().Draw(t, "sort")
 	// stale entries of existing tests (ordinal beyond their calls) and of prefix siblings
